@@ -28,7 +28,13 @@ MARK = '\x01'
 # ---------------------------------------------------------------------------------------------
 # catalogs (fresh copies per use) and the stub executor
 # ---------------------------------------------------------------------------------------------
+_DI = [{'name': 'int', 'type': 'data', 'class_type': 'sql'}, {'name': 'int2', 'type': 'data', 'class_type': 'sql'}]
 CATALOGS = {
+    # the same catalogs with integrations given as dicts (kept by reference by the planner)
+    'one_d': {'integrations': [_DI[0]], 'predictor_namespace': 'mindsdb', 'predictor_metadata': [], 'default_namespace': None},
+    'two_d': {'integrations': _DI, 'predictor_namespace': 'mindsdb', 'predictor_metadata': [], 'default_namespace': None},
+    'model_d': {'integrations': _DI, 'predictor_namespace': 'mindsdb',
+                'predictor_metadata': [{'name': 'pred', 'integration_name': 'mindsdb'}], 'default_namespace': None},
     'one': {'integrations': ['int'], 'predictor_namespace': 'mindsdb', 'predictor_metadata': [], 'default_namespace': None},
     'two': {'integrations': ['int', 'int2'], 'predictor_namespace': 'mindsdb', 'predictor_metadata': [], 'default_namespace': None},
     'model': {'integrations': ['int', 'int2'], 'predictor_namespace': 'mindsdb',
@@ -161,6 +167,11 @@ class Gen:
                 ch.append(('o', ' having count(*) > ' + self.atom(cols)))
         if rng.random() < 0.3:
             ch.append(('o', ' order by ' + self.atom(cols)))
+        if rng.random() < 0.12:
+            # LIMIT / OFFSET placeholders: the pinned grammars reject them (then the statement only counts as
+            # parse_rejected); a grammar that accepts them must bind them in textual order like everything else
+            ch.append(('o', rng.choice([' limit %s', ' limit %s offset %s', ' limit %s, %s', ' limit 5 offset %s'])
+                       .replace('%s', MARK)))
         if rng.random() < 0.15:
             ch.append(('o', ' -- is it ? \n'))
         return ch
@@ -398,11 +409,17 @@ def gen_script(rng, nstmts):
     return s
 
 
+def _weighted_d(rng):
+    r = rng.random()
+    return 'mindsdb' if r < 0.7 else ('mysql' if r < 0.85 else 'sqlite')
+
+
 def gen_scenario(seed):
     rng = random.Random('C12/%d' % seed)
     nsess = rng.choice([1, 2, 2, 3, 3, 4])
     g = Gen(rng, pdens=rng.choice([0.3, 0.45, 0.6]))
     sessions = []
+    dict_ints = rng.random() < 0.3        # integrations handed over as dicts instead of names (whole run)
     for i in range(nsess):
         nst = rng.choice([1, 1, 2])
         stmts = []
@@ -411,13 +428,23 @@ def gen_scenario(seed):
                 ch, cat = g.statement()
                 if text_of(ch).count(MARK) <= 6:
                     break
-            d = 'mindsdb' if rng.random() < 0.8 else 'mysql'
+            if i > 0 and rng.random() < 0.3 and sessions[0]['stmts'][0]['chunks'][0][1].startswith('select'):
+                # a sibling of session 0's first statement: same select list and FROM, another WHERE
+                base_ch = sessions[0]['stmts'][0]['chunks']
+                ch = [c_ for c_ in base_ch if not c_[1].startswith(' where')] + [('o', ' where ' + g.cond(['a', 'b', 'c'], 1))]
+                ch = [tuple(c_) for c_ in ch]
+                cat = sessions[0]['stmts'][0]['cat'].replace('_d', '')
+                if text_of(ch).count(MARK) > 6:
+                    ch = [tuple(c_) for c_ in base_ch]
+            d = _weighted_d(rng)
             r = rng.random()
             tag = rng.randrange(8) if r < 0.6 else (100 + rng.randrange(10) if r < 0.8 else (50 + rng.randrange(8) if d == 'mindsdb' else rng.randrange(8)))
             stmts.append({'chunks': ch, 'cat': cat, 'tag': tag, 'd': d})
         # one planner (one catalog) per session: use the largest catalog any of its statements needs
         rank = {'one': 0, 'two': 1, 'model': 2}
         top = max((st['cat'] for st in stmts), key=lambda c: rank[c])
+        if dict_ints:
+            top += '_d'
         for st in stmts:
             st['cat'] = top
         sessions.append({'stmts': stmts, 'script': gen_script(rng, nst), 'cache_templates': rng.random() < 0.3, 'logs': rng.random() < 0.35})
